@@ -26,7 +26,7 @@ def run(ctx):
 
     # ---------------------------------------------------------------- R1
     r = ctx.rule("C04-R1", "RANGE", "every status run() can return is an int in 0..255; 0 only on the falsy-result "
-                 "path of Command.handle, >= 1 otherwise and on every exception path", reference=7)
+                 "path of Command.handle, >= 1 otherwise and on every exception path", reference=9)
     cfg = ctx.cfg(handle)
     for ret in q.returns(handle):
         if ret.value is None:
@@ -53,6 +53,22 @@ def run(ctx):
         r.fail(handle, handle.node, "implicit None", "Command.handle can fall off its end (returns None)")
     if not any(isinstance(c.ast, ast.Name) for c in cfg.conds()):
         r.fail(handle, handle.node, "no falsy test", "Command.handle does not map a falsy handler result to 0")
+    # the falsy test must see the handler's own result: every definition of the tested variable that
+    # reaches the test is the call of _do_handle (or a literal), never a conversion of it
+    for c in [c for c in cfg.conds() if isinstance(c.ast, ast.Name)]:
+        var = c.ast.id
+        defs = cfg.writes(lambda t: t == var)
+        for d in defs:
+            others = [x.id for x in defs if x is not d]
+            if c.id not in cfg.reach([d.id], blocked=others):
+                continue
+            v = d.ast.value if isinstance(d.ast, ast.Assign) else None
+            direct = isinstance(v, ast.Constant) or (isinstance(v, ast.Call) and any(t.name == "_do_handle" for t in cg.site_for(handle, v).targets))
+            if direct:
+                r.ok("%s: falsy test sees %s" % (handle.short, norm(d.ast)[:50]))
+            else:
+                r.fail(handle, d.ast, "falsy test on " + norm(d.ast), "the 'falsy result -> status 0' test is applied to a converted value (%s), not to what the handler returned: "
+                       "truthy results that convert to 0 ('0', 0.5) give status 0" % norm(d.ast))
     # KeyboardInterrupt arm inside handle
     for n in cfg.nodes:
         if n.kind == "except":
@@ -197,6 +213,33 @@ def run(ctx):
         else:
             r.ok("%s: calls %s exactly once" % (fn.short, callee))
 
+    # ---------------------------------------------------------------- R6
+    r = ctx.rule("C04-R6", "EXC", "what run() does in its exception arm after printing the report cannot itself raise "
+                 "on foreign data: no conversion of attributes of the caught exception outside a handler", reference=1)
+    cfgr = ctx.cfg(run_fn)
+    arm_calls = [cs for cs in cg.sites_in(run_fn) if any(isinstance(a, ast.ExceptHandler) for a in _ancestors(cs.node)) and cs.targets and all(t.cls is app for t in cs.targets)]
+    seen_fns = {}
+    for cs in arm_calls:
+        for t in cs.targets:
+            for g in cg.reachable([t], stop=lambda f: f.cls is not app).values():
+                if g.cls is app:
+                    seen_fns[g.qualname] = g
+    for g in seen_fns.values():
+        gcfg = ctx.cfg(g)
+        risky = []
+        for c in q.calls(g):
+            if isinstance(c.func, ast.Name) and c.func.id in ("int", "float") and c.args and not isinstance(c.args[0], ast.Constant):
+                in_try = any(isinstance(a, ast.Try) and any(cfg_catches(h) for h in a.handlers) for a in _ancestors(c))
+                if not in_try:
+                    risky.append(c)
+        if risky:
+            for c in risky:
+                r.fail(g, c, norm(c), "%s converts foreign data with %s outside any handler: a non-numeric value makes run() raise after the report was printed" % (g.short, norm(c)))
+        else:
+            r.ok("%s: no unguarded conversion of foreign data" % g.short)
+    if not seen_fns:
+        r.vacuous_ok = True
+
     # ---------------------------------------------------------------- R4
     et = ctx.cls("clikit.ui.components.exception_trace.ExceptionTrace")
     rend = et.methods.get("render")
@@ -206,6 +249,11 @@ def run(ctx):
     taint_rule(ctx, "C04-R4", [run_fn, rend],
                "in the error report written by run()'s exception arm, text that is not authored markup never reaches a "
                "markup-interpreting sink that can raise (else the failure of the report escapes run())", reference=42)
+
+    # ---------------------------------------------------------------- R7
+    from .c20 import theme_null_rule
+
+    theme_null_rule(ctx, "C04-R7", reference=4)
 
     # ---------------------------------------------------------------- R5
     r = ctx.rule("C04-R5", "KEY", "the arguments handed to handle() and the command that receives the call come from "
@@ -232,6 +280,14 @@ def run(ctx):
         else:
             r.fail(run_fn, cs.node, norm(cs.node), "the handled command (%s) and the parsed arguments (%s) do not come from the same resolved command" % (a, b))
     return ctx.results
+
+
+def cfg_catches(h):
+    """handler catches ValueError and TypeError (or everything)"""
+    if h.type is None:
+        return True
+    names = [norm(x) for x in (h.type.elts if isinstance(h.type, ast.Tuple) else [h.type])]
+    return "Exception" in names or "BaseException" in names or ("ValueError" in names and "TypeError" in names)
 
 
 def _ancestors(n):
